@@ -61,6 +61,7 @@ type GraphSpec struct {
 	InSet      bool // items in a named set (unused members allowed) instead of direct Build arguments
 	Inline     bool // items in an inline wire.NewSet(...) argument of wire.Build
 	PerNode    bool // each node's items in a named set of their own: wire.Build(Set0, Set1, ...)
+	InlineWrap bool // PerNode: each per-node set reference is wrapped in an inline wire.NewSet(...)
 	Depth      int  // InSet: wrap the named set in this many further named sets (Set <- Outer1 <- Outer2 ...)
 	PairSets   bool // declare named sets pairwise in one var declaration
 	ExtraDecl  string
@@ -203,7 +204,11 @@ func (g *GraphSpec) Build() (*ir.Program, []*ir.Type) {
 		}
 		if g.PerNode && len(items) > start {
 			own := append([]*ir.Item{}, items[start:]...)
-			items = append(items[:start], ir.SetRef(&ir.Set{Pkg: p, Name: fmt.Sprintf("Set%d", i), Items: own}))
+			ref := ir.SetRef(&ir.Set{Pkg: p, Name: fmt.Sprintf("Set%d", i), Items: own})
+			if g.InlineWrap {
+				ref = ir.InlineSet(&ir.Set{Pkg: p, Items: []*ir.Item{ref}})
+			}
+			items = append(items[:start], ref)
 		}
 	}
 	if g.Split && len(items2) > 0 {
